@@ -212,6 +212,7 @@ def _copy(v, memo):
 class State:
     def __init__(self):
         self.env, self.pc, self.decisions, self.ghost = {}, [], [], {}
+        self.cattrs = None         # path-local copy of the contract's attributes (see _PathLocal)
         self.trail = []            # human readable branch trail (for obligation names / replay)
 
     def clone(self):
@@ -220,6 +221,7 @@ class State:
         s.env = {k: _copy(v, memo) for k, v in self.env.items()}
         s.ghost = {k: _copy(v, memo) for k, v in self.ghost.items()}
         s.pc, s.decisions, s.trail = list(self.pc), list(self.decisions), list(self.trail)
+        s.cattrs = _ccopy(getattr(self, "cattrs", None))
         return s
 
     def assume(self, *fs):
@@ -434,9 +436,52 @@ _EXC_NAMES = {"ValueError", "TypeError", "RuntimeError", "KeyError", "IndexError
               "Exception", "ZeroDivisionError", "AttributeError", "NotFittedError", "StopIteration"}
 
 
+def _ccopy(d):
+    """one-level copy of a contract's attribute dict (containers are copied so that appends made on one path do not show on another)"""
+    if d is None:
+        return None
+    return {k: (list(v) if type(v) is list else dict(v) if type(v) is dict else set(v) if type(v) is set else v) for k, v in d.items()}
+
+
+class _PathLocal:
+    """Proxy through which the engine calls the contract: attributes that a hook writes on the contract instance are PATH-LOCAL.
+    All live paths execute a statement in lock step, so an attribute written by a hook on one path would otherwise be seen by the `post` of every
+    path (found when a mutant forked inside `AnnotatedMetricFunction.__call__`).  The attribute dict is stored in the state after every outermost hook
+    call and restored before the next one; State.clone copies it."""
+    _HOOKS = ("params", "post")
+
+    def __init__(self, contract):
+        object.__setattr__(self, "_c", contract)
+        object.__setattr__(self, "_depth", 0)
+
+    def __setattr__(self, k, v):
+        setattr(self._c, k, v)
+
+    def _load(self, st):
+        if self._depth == 0 and isinstance(st, State) and getattr(st, "cattrs", None) is not None:
+            self._c.__dict__.clear()
+            self._c.__dict__.update(_ccopy(st.cattrs))
+
+    def __getattr__(self, name):
+        attr = getattr(self._c, name)
+        if not (callable(attr) and (name.startswith("on_") or name in self._HOOKS)):
+            return attr
+
+        def call(eng, st, *a, **k):
+            self._load(st)
+            object.__setattr__(self, "_depth", self._depth + 1)
+            try:
+                return attr(eng, st, *a, **k)
+            finally:
+                object.__setattr__(self, "_depth", self._depth - 1)
+                if self._depth == 0 and isinstance(st, State):
+                    st.cattrs = _ccopy(self._c.__dict__)
+        return call
+
+
 class Engine:
     def __init__(self, contract, fn_node=None, source=None):
-        self.c = contract
+        self.c = _PathLocal(contract)
         self.src = source or Source.load(contract.source)
         self.fn = fn_node if fn_node is not None else self.src.func(contract.function)
         self.loop_id = loop_ordinals(self.fn)
@@ -874,7 +919,9 @@ class Engine:
             st.env[ctr] = IntVal(0)
             st.env[f"$len{lid}"] = ispec.length
         if spec.prepare:
+            self.c._load(st)
             spec.prepare(st)
+        self.c._load(st)
         for (nm, g) in spec.inv(st):
             self.oblige(st, f"loop{lid}.init.{nm}", g, "inv_init", s)
         names, attrs = self.modified_names(s.body)
@@ -894,6 +941,7 @@ class Engine:
             o = h.env.get(on)
             if isinstance(o, Obj) and at in o.fields:
                 o.fields[at] = self.havoc_value(f"{on}.{at}", o.fields[at], h, spec)
+        self.c._load(h)
         if spec.ghost_havoc:
             spec.ghost_havoc(h)
         for (nm, g) in spec.inv(h):
@@ -920,6 +968,7 @@ class Engine:
                 if status in ("fall", "continue"):
                     if ispec is not None:
                         e.env[ctr] = e.env[ctr] + 1
+                    self.c._load(e)
                     for (nm, g) in spec.inv(e):
                         self.oblige(e, f"loop{lid}.preserved.{nm}", g, "inv_pres", s)
                 elif status == "break":
@@ -1540,6 +1589,7 @@ class Engine:
         # statement bodies: only straight-line / branching helpers that end in a single return per path are inlined
         sub = State()
         sub.env, sub.pc, sub.decisions, sub.ghost, sub.trail = env, st.pc, st.decisions, st.ghost, st.trail
+        sub.cattrs = getattr(st, "cattrs", None)
         saved_src, saved_fn, saved_ids = self.src, self.fn, self.loop_id
         if clo.module is not None:
             self.src = clo.module
@@ -1554,6 +1604,7 @@ class Engine:
             raise Unsupported(f"inlined helper {fn.name} has {len(outs)} exits (needs its own contract)")
         s1, status = outs[0]
         st.pc = s1.pc
+        st.cattrs = getattr(s1, "cattrs", None)
         if status == "fall":
             return None
         if status[0] == "return":
